@@ -614,6 +614,80 @@ def c10_container_case(res, case):
 C10_TEMPLATES = ["overlapping_slices", "slice_twice", "reverse_and_tail", "slice_of_slice", "list_slices", "dict_values", "index_and_slice", "concat_then_slice"]
 
 
+def c10_catalogue_repeat(res, c, rng):
+    """Every primitive configuration of the G-prim catalogue: the VJP / JVP closures are called
+    repeatedly (g1, g2, g1) with frozen arguments and compared with fresh single calls."""
+    from autograd.core import make_jvp, make_vjp
+
+    from . import prim as P
+
+    prep, out = P.prepare(c)
+    if out is not None:
+        return _nj(res, out.reason or "not_prepared")
+    ncall, acall, x0, y0, F = prep
+    sig = {"engine": "graph", "family": "prim_repeat", "prim": c["prim"], "ns": c["ns"], "form": c["form"], "args": [P.classify(a) for a in c["args"]], "kw": {k: P.classify(v) for k, v in c["kwargs"].items()}, "argnum": c["argnum"] if isinstance(c["argnum"], int) else list(c["argnum"])}
+    case = {"kind": "prim_repeat", "case": P.encode_case(c)}
+    arrays = [a for a in common.leaves([c["args"], list(c["kwargs"].values())]) if isinstance(a, onp.ndarray)]
+    h0 = [vhash(a) for a in arrays]
+    for a in arrays:
+        a.flags.writeable = False
+    try:
+        with warnings.catch_warnings():
+            warnings.simplefilter("ignore")
+            with onp.errstate(all="ignore"):
+                try:
+                    vjp, _ = make_vjp(acall, x0)
+                    g1, g2 = common.rand_like(rng, y0), common.rand_like(rng, y0)
+                    for a in common.leaves([g1, g2]):
+                        if isinstance(a, onp.ndarray):
+                            a.flags.writeable = False
+                    hg = vhash([g1, g2])
+                    r1 = vjp(g1)
+                    hr1 = vhash(r1)
+                    r2 = vjp(g2)
+                    r1b = vjp(g1)
+                    fresh2 = make_vjp(acall, x0)[0](g2)
+                    if not bits_equal(r1, r1b) or not bits_equal(r2, fresh2):
+                        return _viol(res, sig, "unstable_repeat", case, "repeated call of the VJP function returned a different answer than the first / a fresh call")
+                    if vhash(r1) != hr1:
+                        return _viol(res, sig, "foreign_write", case, "a previously returned VJP result was modified by a later call")
+                    if vhash([g1, g2]) != hg:
+                        return _viol(res, sig, "foreign_write", case, "cotangent modified")
+                    _cnt(res, "catalogue_vjp_repeats")
+                except ValueError as e:
+                    if "read-only" in str(e):
+                        # does the same call succeed on writable copies? then the write is autograd's
+                        try:
+                            c2 = P.decode_case(P.encode_case(c))
+                            prep2, _o = P.prepare(c2)
+                            make_vjp(prep2[1], prep2[2])[0](common.rand_like(rng, prep2[3]))
+                            return _viol(res, sig, "foreign_write", case, "write into frozen foreign memory: %s" % e)
+                        except Exception:
+                            return _nj(res, "raised:ValueError")
+                    return _nj(res, "raised:ValueError")
+                except Exception as e:
+                    return _nj(res, "raised:" + type(e).__name__)
+                try:
+                    jvp = make_jvp(acall, x0)
+                    v1, v2 = common.rand_like(rng, x0), common.rand_like(rng, x0)
+                    if c.get("domain") == "herm":
+                        v1, v2 = P._herm(onp.asarray(v1)), P._herm(onp.asarray(v2))
+                    t1 = jvp(v1)[1]
+                    t2 = jvp(v2)[1]
+                    t1b = jvp(v1)[1]
+                    if not bits_equal(t1, t1b) or not bits_equal(t2, make_jvp(acall, x0)(v2)[1]):
+                        return _viol(res, dict(sig, mode="fwd"), "unstable_repeat", case, "repeated call of the JVP function differs")
+                    _cnt(res, "catalogue_jvp_repeats")
+                except Exception:
+                    pass
+        if [vhash(a) for a in arrays] != h0:
+            return _viol(res, sig, "foreign_write", case, "an argument array was modified")
+    finally:
+        for a in arrays:
+            a.flags.writeable = True
+    _ok(res, sig)
+
+
 def _basis(y):
     y = onp.asarray(y)
     out = []
@@ -866,6 +940,10 @@ def run_one(pid, res, case, tier):
         return c10_case(res, case, tier)
     if k == "c10_container":
         return c10_container_case(res, case)
+    if k == "prim_repeat":
+        from . import prim as P
+
+        return c10_catalogue_repeat(res, P.decode_case(case["case"]), onp.random.Generator(onp.random.PCG64(17)))
     if k == "index":
         return c11_index_case(res, case, tier)
     if k == "mix":
@@ -889,6 +967,21 @@ def run_shard(pid, tier, seed, idx, n):
         except Exception:
             _nj(res, "harness_error")
             res["sets"].setdefault("harness_errors", set()).add(traceback.format_exc()[-400:])
+    if pid == "C10":
+        from ..gen import catalogue
+
+        crng = onp.random.Generator(onp.random.PCG64([seed, 0, 113]))
+        cs = [c for c in catalogue.all_cases(crng, cx=False) if c.get("argnum") is not None and c["form"] != "special" and c.get("point", "regular") == "regular"]
+        if tier == "thorough":
+            cs += [c for c in catalogue.all_cases(crng, cx=True) if c.get("argnum") is not None and c["form"] != "special"]
+        res["info"]["catalogue_cases"] = len(cs)
+        for i in range(idx, len(cs), n):
+            res["evaluations"] += 1
+            try:
+                c10_catalogue_repeat(res, cs[i], onp.random.Generator(onp.random.PCG64([seed, i, 127])))
+            except Exception:
+                _nj(res, "harness_error")
+                res["sets"].setdefault("harness_errors", set()).add(traceback.format_exc()[-400:])
     if pid == "C03":
         rng = onp.random.Generator(onp.random.PCG64([seed, idx, 13]))
         c03_toposort(res, rng, (3000 if tier == "quick" else 50000) // n)
